@@ -1050,7 +1050,8 @@ func init() {
 			"R15.3: the parser's token tables (hash names, 08/10, PSHA*, S/M/H x1/60/3600 without narrowing) and its structure: every successful parser return is dominated by Validate()==nil of the returned configuration; the version part is compared by equality. " +
 			"R15.4: the functions reachable from the suite constructors and lookups keep no package-level mutable state (no memoisation that could make one parse influence the next). " +
 			"R15.5: the enumerators have the documented numeric wire values; R15.6: NewSuite returns the given configuration unchanged. " +
-			"Not decided: the parser's behaviour over the whole string language (split/trim/Atoi are runtime string processing).",
+			"Not decided: the parser's behaviour over the whole string language (split/trim/Atoi are runtime string processing). " +
+			"R15.3 error-used: no step's error on the parser path is dropped or overwritten unread; R15.REST.7 a handler that answers from the table with SuiteConfigFromRaws also asks IsKnownSuite about the same text.",
 		assume:   []string{"a time token without unit in a registered name (\"T1\") means seconds: the registry's own spelling, frozen as the single exception"},
 		quick:    []Config{CfgNative},
 		thorough: []Config{CfgNative, CfgWasm, Cfg386},
